@@ -609,6 +609,28 @@ func genKeyImportOrder(sb *strings.Builder, fset *token.FileSet, f *ast.File) {
 			lookupAt = i
 		}
 	}
+	// ... and is a pure lookup: it stores nothing into the key map or into a stored token (the model's
+	// checkAPIKey has no effect on the state; an expired key stays expired however often it is presented)
+	ast.Inspect(fd.Body, func(n ast.Node) bool {
+		var lhs []ast.Expr
+		switch x := n.(type) {
+		case *ast.AssignStmt:
+			lhs = x.Lhs
+		case *ast.IncDecStmt:
+			lhs = []ast.Expr{x.X}
+		case *ast.CallExpr:
+			if exprString(fset, x.Fun) == "delete" {
+				die("checkAPIKey: deletes from a map (the lookup is modelled without effect)")
+			}
+		}
+		for _, l := range lhs {
+			s := exprString(fset, l)
+			if strings.HasPrefix(s, "token.") || strings.HasPrefix(s, "*token") || strings.HasPrefix(s, "apiKeys") {
+				die("checkAPIKey: writes %s (the lookup is modelled without effect on the stored keys)", s)
+			}
+		}
+		return true
+	})
 	if lockAt < 0 || lookupAt < 0 || lookupAt < lockAt {
 		die("checkAPIKey: the key lookup is not inside apiKeysLock.Lock(); defer apiKeysLock.Unlock()")
 	}
